@@ -100,6 +100,7 @@ func init() {
 	eng.Register(&eng.Monitor{
 		ID: "C10", Level: "exploration", Race: true,
 		Rule: "cases = (group of copy constructors, parameter set drawn per seed: ring type, logN 4..9, Q/P prime sizes and counts, auxiliary modulus or power-of-two decomposition, NTT / coefficient domain, plaintext modulus with full or reduced slot count, encoder precision, secret distribution); inside a case every constructor of the group (ShallowCopy / WithKey / WithPRNG / WithParams / CopyNew / AtLevel of the types listed in the counters 'ctor:*') is applied to originals in every configuration of the group (key kinds, nil / partial / full / late-extended key sets, mode flags, compressed keys, levels) and judged by (1) the reflection walk original vs copy, (2) the differential schedule reference / original / copy / original / copy / copy-of-used / copy-of-copy with shared-memory hashes taken around it, (3) for CopyNew: no shared memory + bit-flip of every leaf of one side; race/ cases run 2..16 goroutines (one copy each, goroutine 0 on the original) under the race detector at GOMAXPROCS 2, 4 or 16 and compare every result with the sequential reference. " +
+			"Added by the coverage audit: (a) group rlwe-inplace: the in-place deep copies ring.Poly.Copy / CopyLvl, ringqp.Poly.Copy / CopyLvl, rlwe.Element.Copy (both polynomial types), rlwe.Ciphertext.Copy, rlwe.Plaintext.Copy into receivers that are dirty, of a higher / lower level or degree, row-aliased or the source itself, judged against the documented copy semantics (exact value + metadata, rows / components outside the copied range untouched, source unchanged, nothing shared afterwards, bit-flip of either side invisible on the other, the two views of a plaintext stay one polynomial); (b) constructors applied to the result of another constructor (cfg '/of-..', '/then-..': WithKey(..).ShallowCopy(), ShallowCopy().WithKey(..), WithPRNG(..).WithKey(..) whose c1 must continue the keyed stream) for encryptors, decryptors and the evaluators of every layer; (c) rlwe.KeyGenerator as original (workload: key pair, switching key plain and compressed, relinearization key, Galois key, each proven by use) with the promoted ShallowCopy / WithKey / WithPRNG as copies, and EncryptZero over QP (the call key generators make) judged by the exact truncation bound of the error distribution; (d) non-default error distributions (wide / tight Gaussian, ternary, fixed-weight ternary: parameter sets *Xe*) for encryptors and multiparty protocols, whose copies rebuild their samplers; (e) group blindrot: sibling blindrot evaluators sharing one blind-rotation key set, and copies of the rgsw evaluator that the blind rotation re-keyed; (f) group circuits: dft / mod1 evaluators rebuilt over ckks.Evaluator.ShallowCopy() sharing matrices, polynomials and keys (as bootstrapping.Evaluator.ShallowCopy does), also in the race lane of the quick tier; (g) key sets without relinearization key / without Galois keys / zero value, ring packing with one switching step or ring-switching keys only, tight Gaussian and weight-1 / weight-(N-1) ternary sampler views. " +
 			"distinct key = (constructor, configuration of the original, parameter set) plus, for race cases, (goroutines, GOMAXPROCS), and for sampler views (sampler kind, level). Non-trivial = the original carries state the constructor has to preserve, re-allocate or rebind: a key or key set (full, partial, extended after construction), a mode flag, a precision, scratch buffers that the workload dirties, a compressed or reduced-level key, non-default metadata, or the constructor rebinds a key / PRNG / level / output parameters. Trivial (counted in subjects_trivial, not in distinct_nontrivial) = ShallowCopy of a keyless evaluator / encryptor or of a nil basis extender, AtLevel(current level), CopyNew of a container of plain numbers.",
 		Cases: cases,
 		Assumptions: []string{
@@ -108,6 +109,8 @@ func init() {
 			"objects that draw fresh randomness (encryptors, multiparty protocols) are compared through decryption-based verdicts: noise at most 2^(log2 Q_level - 12); the parameter sets keep every worst-case fresh, key-switching and smudging bound below that limit, while a wrong key / dropped term gives noise of the size of Q",
 			"sampler views are compared with an equally keyed sampler built directly at the level of the view (first read), and - Gaussian / ternary only, whose consumption of randomness does not depend on the level - with the rows of the full-level stream for sequences of reads",
 			"the race detector only sees the accesses the workload performs; GOMAXPROCS and start offsets are varied, interleavings are not enumerated",
+			"writes to shared memory are detected by hashing it around the workload: a write that restores exactly the bytes that were there at snapshot time (the same deterministic scratch content written again) is invisible sequentially and left to the race lane",
+			"the in-place Copy / CopyLvl methods are deep copies in the sense of the property (documented as 'copies ... on the target'); receivers stay inside the documented domain: same ring degree, any level, any degree ('up to the capacity of op')",
 		},
 	})
 }
